@@ -97,7 +97,9 @@ struct ConcurrentObjectArena {
         "ConcurrentObjectArena copy constructor uses memcpy; T must be trivially copyable.");
     T** otherBuffers = other.buffers_.load(std::memory_order_acquire);
     T** newBuffers = new T*[buffersSize_];
-    for (Index i = 0; i < buffersSize_; ++i) {
+    // Only the first buffersPos_ entries of the pointer array are buffers; the rest of its capacity
+    // (buffersSize_) is uninitialized.
+    for (Index i = 0; i < buffersPos_; ++i) {
       void* ptr = detail::alignedMalloc(kBufferSize * sizeof(T), alignment);
 #if defined(__cpp_exceptions)
       if (ptr == nullptr)
